@@ -2183,6 +2183,9 @@ func (b transportResponseBody) Read(p []byte) (n int, err error) {
 		return 0, cs.readErr
 	}
 	n, err = b.cs.bufPipe.Read(p)
+	// All bytes taken out of the pipe have their flow control returned,
+	// including any that are dropped for exceeding the declared Content-Length.
+	refund := n
 	if cs.bytesRemain != -1 {
 		if int64(n) > cs.bytesRemain {
 			n = int(cs.bytesRemain)
@@ -2191,25 +2194,25 @@ func (b transportResponseBody) Read(p []byte) (n int, err error) {
 				cs.abortStream(err)
 			}
 			cs.readErr = err
-			return int(cs.bytesRemain), err
-		}
-		cs.bytesRemain -= int64(n)
-		if err == io.EOF && cs.bytesRemain > 0 {
-			err = io.ErrUnexpectedEOF
-			cs.readErr = err
-			return n, err
+		} else {
+			cs.bytesRemain -= int64(n)
+			if err == io.EOF && cs.bytesRemain > 0 {
+				err = io.ErrUnexpectedEOF
+				cs.readErr = err
+				return n, err
+			}
 		}
 	}
-	if n == 0 {
+	if refund == 0 {
 		// No flow control tokens to send back.
 		return
 	}
 
 	cc.mu.Lock()
-	connAdd := cc.inflow.add(n)
+	connAdd := cc.inflow.add(refund)
 	var streamAdd int32
 	if err == nil { // No need to refresh if the stream is over or failed.
-		streamAdd = cs.inflow.add(n)
+		streamAdd = cs.inflow.add(refund)
 	}
 	cc.mu.Unlock()
 
